@@ -108,6 +108,9 @@ def gen_history(rng, ast, sm, packages):
                 t = rng.choice(packages[rng.choice(others)]["types"])
                 extra.append("<%s imp3/>" % t["name"])
             lines = ["%%import %s" % p] + extra
+            if others and rng.random() < 0.3:
+                # ... or both packages, the other one first
+                lines.insert(0, "%%import %s" % rng.choice(others))
             r2 = rng.random()
             if r2 < 0.3:
                 lines = extra + ["%%import %s" % p]
@@ -418,6 +421,11 @@ def run_shard(spec):
                 ptypes.append({"name": "p%dx" % (p + 1), "keytype": newkt, "datatype": None,
                                "implements": rng.choice(ast["abstract"]), "extends": b["name"], "items": []})
             packages[pname] = {"abstract": [], "types": ptypes, "imports": []}
+        if len(packages) == 2 and rng.random() < 0.4:
+            # the second component imports the first: '%import' of the second brings both
+            first, second = sorted(packages)
+            packages[second]["imports"] = [first]
+            counters["history-with:component-importing-a-component"] += 1
         ops = gen_history(rng, ast, sm, packages)
         if overlapping:
             loads = [k_ for k_, o in enumerate(ops) if o["op"] == "load"]
